@@ -122,6 +122,56 @@ UNIT = Unit(
                      Closure(1, "a: u128, b: CoinValue", "(r: u128)", ensures=[C("satl", "r as int == sat128(a + b.0)", "C15")]),
                      Closure(2, "tx: &Transaction", "(r: CoinValue)", requires=[C("has0r", "tx.outputs@.len() > 0")], ensures=[C("right", "r.0 as int == req_value(*tx, pool.right)", "C15")]),
                      Closure(3, "a: u128, b: CoinValue", "(r: u128)", ensures=[C("satr", "r as int == sat128(a + b.0)", "C15")])]),
+        Fn(C_, "remove_coin", impl="CoinMapping", mode="assume", **cm_remove_coin()),
+        Fn(M, "process_deposits_for_single_pool", home="C15", implicit_props=("C09", "C15", "C16", "C01"), **mm_deposits_single(),
+           uses="group_core_axioms, axiom_isqrt",
+           rewrites=[("R3", 0), ("ROOT", "iter", 0, "slice_iter", False), ("ANF", "fold", 0, 2, {}, "L"), ("ROOT", "iter", 0, "slice_iter", False), ("ANF", "fold", 1, 2, {}, "R"),
+                     ("ROOT", "iter", 0, "slice_iter", False), ("ANF", "fold", 2, 2, {}, "W")],
+           closures=[Closure(0, "tx: &Transaction", "(r: u128)", requires=[C("has0", "tx.outputs@.len() > 0")], ensures=[C("v0", "r == tx.outputs@[0].value.0", "C15")]),
+                     Closure(1, "a: u128, b: u128", "(r: u128)", ensures=[C("sat0", "r as int == sat128(a + b)", "C15")]),
+                     Closure(2, "tx: &Transaction", "(r: u128)", requires=[C("has1", "tx.outputs@.len() > 1")], ensures=[C("v1", "r == tx.outputs@[1].value.0", "C15")]),
+                     Closure(3, "a: u128, b: u128", "(r: u128)", ensures=[C("sat1", "r as int == sat128(a + b)", "C15")]),
+                     Closure(4, "tx: &Transaction", "(r: u128)", requires=[C("has2", "tx.outputs@.len() > 1")], ensures=[C("w", "r as int == dep_weight(*tx)", "C15")]),
+                     Closure(5, "a: u128, b: u128", "(r: u128)", ensures=[C("sat2", "r as int == sat128(a + b)", "C15")])],
+           injects=[Inject("entry", """let ghost deps0 = deposits@; let ghost st0 = *state; let ghost c0 = state.coins@.coins; let ghost n0 = deposits@.len() as int;
+                        let ghost legacy = deposit_legacy(state.network, state.height);"""),
+                    Inject(("after_let", "total_lefts"), """proof { let accs = choose|accs: Seq<u128>| #[trigger] fold_decided(__clL1, __cL0@, 0u128, accs) && total_lefts == accs[__cL0@.len() as int];
+                        lemma_fold_sat(__cL0@, out_vals(deps0, 0), accs, n0); }"""),
+                    Inject(("after_let", "total_rights"), """proof { let accs = choose|accs: Seq<u128>| #[trigger] fold_decided(__clR1, __cR0@, 0u128, accs) && total_rights == accs[__cR0@.len() as int];
+                        lemma_fold_sat(__cR0@, out_vals(deps0, 1), accs, n0); }"""),
+                    Inject(("after_let", "sum_mtsqrt"), """proof { let accs = choose|accs: Seq<u128>| #[trigger] fold_decided(__clW1, __cW0@, 0u128, accs) && sum_mtsqrt == accs[__cW0@.len() as int];
+                        lemma_fold_sat(__cW0@, dep_weights(deps0), accs, n0); }"""),
+                    Inject(("after_let", "total_mtsqrt", 1), """let ghost tl = sat_sum(out_vals(deps0, 0), n0); let ghost tr = sat_sum(out_vals(deps0, 1), n0); let ghost div = total_mtsqrt as int;
+                        proof { assert(div == dep_divisor(deps0));
+                            if n0 > 0 { lemma_sat_sum_bounds(out_vals(deps0, 0), n0); lemma_sat_sum_bounds(out_vals(deps0, 1), n0);
+                                assert(out_vals(deps0, 0)[0] >= 1 && out_vals(deps0, 1)[0] >= 1); assert(tl >= 1 && tr >= 1);
+                                let a = spec_isqrt(tl); let b = spec_isqrt(tr);
+                                assert(a >= 1) by (nonlinear_arith) requires a >= 0, tl < (a + 1) * (a + 1), tl >= 1;
+                                assert(b >= 1) by (nonlinear_arith) requires b >= 0, tr < (b + 1) * (b + 1), tr >= 1;
+                                assert(a * b >= 1) by (nonlinear_arith) requires a >= 1, b >= 1;
+                                assert(div >= 1); } }"""),
+                    Inject(("after_let", "total_liqs"), """let ghost minted = total_liqs as int; let ghost pools1 = state.pools@;
+                        proof { assert(pool_deposited(pool_or_empty(st0.pools@, *pool), pools1[*pool], tl, tr, minted));
+                            assert(pools1.dom() =~= st0.pools@.dom().insert(*pool));
+                            assert(!legacy ==> deps_settled(c0, c0, deps0, 0, *pool, minted, div, st0.height)); }"""),
+                    Inject(("before", "if (state.network == NetID::Mainnet"), "let ghost cmid = state.coins@.coins; let ghost d = cmid[cid(deps0[i], 0)];"),
+                    Inject("end", """proof { let ws = dep_weights(deps0);
+                        assert forall|q: int| 0 <= q < ws.len() implies #[trigger] ws[q] >= 0 by { let a = spec_isqrt(deps0[q].outputs@[0].value.0 as int); let b = spec_isqrt(deps0[q].outputs@[1].value.0 as int);
+                            assert(a * b >= 0) by (nonlinear_arith) requires a >= 0, b >= 0; }
+                        if n0 > 0 { lemma_sat_sum_bounds(ws, n0); lemma_shares_le(minted, ws, div, n0); }
+                        assert(deposits_result(st0.pools@, c0, deps0, *pool, st0.height, legacy, state.pools@, state.coins@.coins, minted)); }""")],
+           loops=[Loop(0,
+               body_entry="let ghost cb = state.coins@.coins; let ghost i = __i as int; proof { assert(deposits@[i] == deps0[i]); }",
+               body_exit="""proof { lemma_origin_insert(cb, deps0[i], 0, d);
+                   if legacy { lemma_origin_remove(cmid, cid(*deposit, 1)); } else { lemma_origin_remove(cmid, cid(deps0[i], 1));
+                       lemma_deps_settled_step(c0, cb, deps0, i, *pool, minted, div, st0.height, d); } }""",
+               invariants=[
+                   C("len", "deposits@.len() == n0 && __n == n0 && n0 == deps0.len() && deposits_pre(deps0, *pool) && (forall|j: int| __i <= j < n0 ==> #[trigger] deposits@[j] == deps0[j])", "C15"),
+                   C("consts", "total_liqs as int == minted && total_mtsqrt as int == div && (n0 > 0 ==> div >= 1) && legacy == deposit_legacy(st0.network, st0.height)", "C15"),
+                   C("settled", "!legacy ==> deps_settled(c0, state.coins@.coins, deps0, __i as int, *pool, minted, div, st0.height)", "C15", "C01"),
+                   C("inv", "state.coins.wf() && (spec_tip906(st0) ==> counts_ok(state.coins@)) && origin_ok(state.coins@.coins) && (!spec_tip906(st0) ==> state.coins@.counts == st0.coins@.counts)", "C20"),
+                   C("frame", "pool_phase_frame(st0, *state) && state.fee_pool == st0.fee_pool && state.pools@ == pools1 && state.height == st0.height && state.network == st0.network", "C15"),
+               ])]),
         Fn(S, "tip_902", impl="UnsealedState", mode="assume", **st_tip(180000)),
         Fn(M, "create_builtins", home="C16", implicit_props=("C09", "C16"),
            uses="group_core_axioms, axiom_builtin_order, axiom_bytes_lt, axiom_denom_bytes_inj",
